@@ -152,4 +152,9 @@ def suite_races(ctx):
     return s
 
 
-SUITES = [suite_enc, suite_iso, suite_mem_frames, suite_two_clients, suite_reentrant, suite_races]
+def suite_user_code(ctx):
+    """an application that extends the library with classes of its own (child process: harness/user_child.py memloc_subclass)"""
+    return core.suite_user_code('memloc_subclass', 'memory-addressed request')
+
+
+SUITES = [suite_enc, suite_iso, suite_mem_frames, suite_two_clients, suite_reentrant, suite_races, suite_user_code]
